@@ -1,4 +1,5 @@
 import PegVerif.Proofs.RefineRule
+import PegVerif.Proofs.NonVacuity
 /-
   C14 – user check and extern functions decide matches exactly as documented.
   In the reference semantics (`Spec`) checks and externs are semantic predicates; `eval_ref` (see
@@ -89,5 +90,135 @@ theorem C14_context_threaded (env : Env) (f : List String) (fs : List (List Stri
       runChecks env fs v s (({ g with uctx := (env.hooks.check ("::".intercalate f) v g.uctx).2 } : Global).emit
         (.checkCall ("::".intercalate f) v.render g.uctx)) := by
   simp [runChecks, hb]
+
+/-! ## non-vacuity (BEGIN) -/
+namespace C14_nv
+open Peg.NV
+
+/-! instance: user functions that really reject something
+    ```
+    @export S = first:Num {'+' rest:Num} [v:Vowel] [x:Any] | word:Word ;
+    @string @check(small) @check(m::odd) Num = {'0'..'9'}+ ;     -- at most one digit, and an odd one
+    @char @check(vowel) Vowel = 'a'..'z' ;                         -- a lowercase letter that is a vowel
+    @extern(any) Any ;                                             -- one byte of anything
+    @string Word = {'a'..'z'}+ ;
+    ```
+    `ctr = true` makes every check increment the user context (for `C14_context_threaded`). -/
+def hooksU (ctr : Bool) : Hooks :=
+  { extern := fun f bs u =>
+      if f == "any" then (match bs with | b :: _ => (.ok (.ext "any" b.toNat, 1), u) | [] => (.error "eof", u))
+      else (.error "no such extern", u)
+    check := fun f v u =>
+      ((match v with
+        | .str bs => if f == "small" then decide (bs.length ≤ 1) else if f == "m::odd" then bs.all (fun b => b % 2 == 1) else true
+        | _ => true), if ctr then u + 1 else u)
+    charCheck := fun f c => f == "vowel" && ['a', 'e', 'i', 'o', 'u'].contains c }
+
+def numChecks : List Directive := [.check ["small"], .check ["m", "odd"]]
+def ruleSU : Rule := ⟨[.export], "S",
+  .choice [.seq [fld "first" "Num", .closure (.choice [.seq [lit '+', fld "rest" "Num"]]) false,
+                 .opt (.choice [.seq [fld "v" "Vowel"]]), .opt (.choice [.seq [fld "x" "Any"]])],
+           .seq [fld "word" "Word"]]⟩
+def vowel : CharRule := ⟨[["vowel"]], "Vowel", [.range (.chr 'a') (.chr 'z')]⟩
+def anyR : ExternRule := ⟨["any"], none, "Any"⟩
+def envU (ctr : Bool) : Env :=
+  { g := ⟨[.rule ruleSU, .rule (ruleNum numChecks), .charRule vowel, .externRule anyR, .rule ruleWord]⟩,
+    settings := {}, hooks := hooksU ctr, nf := 10 }
+
+example : (ruleNum numChecks).checks = [["small"], ["m", "odd"]] := by decide
+
+/-- `"1 + 3a?"`: both numbers pass both checks, `a` is a vowel, the extern takes `?` -/
+def inpA : List UInt8 := [49, 32, 43, 32, 51, 97, 63]
+/-- `"1+2e"`: `2` is rejected by `m::odd` (so the closure stops and `+2e` is left), `"1+23"`: `23` is rejected by
+    `small`; `"1b"`: `b` is rejected by the `@char` check, then the extern takes it -/
+example : show' (parseAdvanced (envU false) 24 "S" inpA 0) =
+      some ("S { first: Some(S\"31\"), rest: [S\"33\"], v: Some(C'61'), x: Some(any(63)), word: None }", 7) ∧
+    show' (parseAdvanced (envU false) 24 "S" [49, 43, 50, 101] 0) =
+      some ("S { first: Some(S\"31\"), rest: [], v: None, x: Some(any(43)), word: None }", 2) ∧
+    show' (parseAdvanced (envU false) 24 "S" [49, 43, 50, 51] 0) =
+      some ("S { first: Some(S\"31\"), rest: [], v: None, x: Some(any(43)), word: None }", 2) ∧
+    show' (parseAdvanced (envU false) 24 "S" [49, 98] 0) =
+      some ("S { first: Some(S\"31\"), rest: [], v: None, x: Some(any(98)), word: None }", 2) := by decide
+/-- a failing parse: `"22"` – the check failure is an ordinary error, reported at the offset the rule had reached (2) -/
+example : reported (parseAdvanced (envU false) 24 "S" [50, 50] 0) = some ⟨2, .checkFunctionFailed "small"⟩ ∧
+    (match (eval (envU false) 20).rule "Num" (St.new [50, 50]) (Global.init 0) with
+     | some (.err e, g) => e == ⟨2, .checkFunctionFailed "small"⟩ && g.log.length == 3
+     | _ => false) = true := by decide
+
+/-- `C14_checks` on the two checks of `Num`: accepted value `"3"`, rejected values `"2"` (second check) and `"23"` (first) -/
+def sEnd : St := ⟨[], 1, none⟩
+example : Spec.runChecks (envU false) 0 [["small"], ["m", "odd"]] (.str [51]) sEnd = some (.ok (.str [51]) sEnd) := by
+  rw [C14_checks]; rfl
+example : Spec.runChecks (envU false) 0 [["small"], ["m", "odd"]] (.str [50]) sEnd = some (.err Spec.noErr) := by
+  rw [C14_checks]; rfl
+example : Spec.runChecks (envU false) 0 [["small"], ["m", "odd"]] (.str [50, 51]) sEnd = some (.err Spec.noErr) := by
+  rw [C14_checks]; rfl
+
+/-- `C14_check_failure_is_error`: its premise holds for `small` on `"23"` -/
+example : ∃ g', runChecks (envU false) [["small"], ["m", "odd"]] (.str [50, 51]) ⟨[], 2, none⟩ (Global.init 0) =
+    some (.err ((⟨[], 2, none⟩ : St).reportError (.checkFunctionFailed "small")), g') :=
+  C14_check_failure_is_error (envU false) ["small"] [["m", "odd"]] (.str [50, 51]) ⟨[], 2, none⟩ (Global.init 0) (by decide)
+
+/-- `C14_context_threaded` with the counting hooks: `small` accepts `"3"` and leaves context 6, which `m::odd` receives -/
+example : runChecks (envU true) [["small"], ["m", "odd"]] (.str [51]) sEnd (Global.init 5) =
+    runChecks (envU true) [["m", "odd"]] (.str [51]) sEnd
+      (({ (Global.init 5) with uctx := 6 } : Global).emit (.checkCall "small" "S\"33\"" 5)) :=
+  C14_context_threaded (envU true) ["small"] [["m", "odd"]] (.str [51]) sEnd (Global.init 5) (by decide)
+example : (match runChecks (envU true) [["small"], ["m", "odd"]] (.str [51]) sEnd (Global.init 5) with
+    | some (.ok _ _, g) => g.uctx == 7 && g.log.length == 2 | _ => false) = true := by decide
+
+/-- `C14_char_checks` for `Vowel`: on `"b"` the check rejects before the alternatives are tried, on `"e"` it accepts, at
+    end of input the rule fails -/
+def R : Spec.SRec := Spec.eval (envU false) 0 5
+example : Spec.charRule (envU false) R vowel (St.new [98]) = some (.err Spec.noErr) := by
+  rw [C14_char_checks _ _ _ _ rfl]; rfl
+example : Spec.charRule (envU false) R vowel (St.new [101]) = Spec.charParts R vowel.choices (St.new [101]) := by
+  rw [C14_char_checks _ _ _ _ rfl]; rfl
+example : Spec.charRule (envU false) R vowel (St.new []) = some (.err Spec.noErr) := by
+  rw [C14_char_checks _ _ _ _ rfl]; rfl
+example : (match Spec.charRule (envU false) R vowel (St.new [101]) with
+    | some (.ok (.chr c) s) => c == 'e' && s.off == 1 | _ => false) = true := by decide
+
+/-- `C14_extern` / `C14_extern_consumes`: the extern `any` on `"?x"` at offset 6 returns `Ok((any(63), 1))` -/
+def s6 : St := ⟨[63, 120], 6, none⟩
+example : Spec.externRule (envU false) 0 anyR s6 = some (Spec.abs (s6.advanceSafe 1 (Val.ext "any" 63))) := by
+  rw [C14_extern]; rfl
+example : ∃ v' s', s6.advanceSafe 1 (Val.ext "any" 63) = .ok v' s' ∧ s'.off = 6 + 1 ∧ s'.rest = [120] := by
+  obtain ⟨h1, h2, h3⟩ := C14_extern_consumes s6 1 (Val.ext "any" 63) _ _ rfl
+  exact ⟨_, _, rfl, h2, h3⟩
+/-- … and fails at end of input -/
+example : Spec.externRule (envU false) 0 anyR ⟨[], 7, none⟩ = some (.err Spec.noErr) := by rw [C14_extern]; rfl
+
+/-- `C14_extern_after_skip`: `x:Any` in the skipping context of `S` on `"  ?"` – the extern sees `"?"` (offset 2) -/
+def ctxS : Ctx := ⟨true, ownFields (envU false) ruleSU.definition⟩
+def R20 : Spec.SRec := Spec.eval (envU false) 0 20
+example : Spec.stepExpr (envU false) R20 20 ctxS (fld "x" "Any") (St.new [32, 32, 63]) =
+    Spec.bindS (R20.rule "Whitespace" (St.new [32, 32, 63])) (fun _ s1 =>
+      Spec.bindS (R20.rule "Any" s1) fun v s' =>
+        match postprocessField ctxS.ruleFields "x" "Any" v with
+        | .ok fv => some (.ok [("x", fv)] s')
+        | .error m => some (.panic ("codegen: " ++ m))) :=
+  C14_extern_after_skip (envU false) R20 20 ctxS (some (.ident "x")) false "Any" (St.new [32, 32, 63]) rfl
+example : (match Spec.stepExpr (envU false) R20 20 ctxS (fld "x" "Any") (St.new [32, 32, 63]) with
+    | some (.ok p s) => (p.get "x").map Val.render == some "Some(any(63))" && s.off == 3 | _ => false) = true := by decide
+
+/-- `C14_generated_code_refines`: the pure hooks satisfy `PureHooks`; the run on `"1 + 3a?"` -/
+theorem hp : PureHooks (envU false).hooks :=
+  ⟨fun f bs u => by
+    simp only [envU, hooksU]
+    split
+    · split <;> rfl
+    · rfl, fun _ _ _ => rfl⟩
+/-- (the counting hooks do not: that hypothesis is a real restriction) -/
+example : ¬ PureHooks (envU true).hooks := fun h => absurd (h.2 "small" (.str []) 0) (by decide)
+theorem hnl : NoLeftrec (envU false).g := noLeftrec_of (by decide)
+theorem run_some : ((eval (envU false) 24).rule "S" (St.new inpA) (Global.init 0)).isSome = true := by decide
+example : ∃ m, (Spec.eval (envU false) 0 m).rule "S" (Spec.clr (St.new inpA)) =
+    some (Spec.abs (((eval (envU false) 24).rule "S" (St.new inpA) (Global.init 0)).get run_some).1) :=
+  C14_generated_code_refines (envU false) hp hnl inpA 0 24 "S" (St.new inpA) (Global.init 0) (wf_of (by decide))
+    ⟨rfl, fun _ _ _ hl => by simp [Global.init, Global.lookup] at hl⟩ (run_eq run_some)
+
+end C14_nv
+/-! ## non-vacuity (END) -/
 
 end Peg.Props
